@@ -338,13 +338,19 @@ func (osObj *VirtualOS) MkdirTemp(dir, pattern string) (string, error) {
 	if osObj.tmp == "" {
 		return "", errors.New("no temporary directory")
 	}
-	mount, _, found := osObj.findMount(osObj.tmp)
+	// (the pattern is part of a name, not a path: as in os.MkdirTemp)
+	if strings.ContainsAny(pattern, "/\\") {
+		return "", errors.New("pattern contains path separator")
+	}
+	mount, tmpInMount, found := osObj.findMount(osObj.tmp)
 	if !found {
 		return "", fmt.Errorf("temporary directory not found: %s", osObj.tmp)
 	}
 	rint := rand.Int63()
 	dirName := fmt.Sprintf("%d-%s", rint, pattern)
-	if err := mount.Source.Mkdir(dirName, 0o755); err != nil {
+	// The directory is created where the temporary directory lies inside its
+	// mount, which is the path that is returned
+	if err := mount.Source.Mkdir(filepath.Join(tmpInMount, dirName), 0o755); err != nil {
 		return "", err
 	}
 	return filepath.Join(osObj.tmp, dirName), nil
